@@ -16,15 +16,17 @@ func forgeHeader(t *sim.Tape, stream []byte, h model.Header, res *Result, maxBlo
 	switch t.Intn(6) {
 	case 0:
 		// block size: small, huge (capped so that legitimate allocation of declared sizes stays affordable), odd
-		switch t.Intn(4) {
+		switch t.Intn(5) {
 		case 0:
 			blockSize = 1024
 		case 1:
 			blockSize = 16 * (64 + t.Intn(maxBlock/16-64))
 		case 2:
 			blockSize = maxBlock
+		case 3:
+			blockSize = []int{0, 16, 512, 1008}[t.Intn(4)] // below the legal minimum, zero included
 		default:
-			blockSize = 16 * t.Intn(64) // below the legal minimum
+			blockSize = 16 * t.Intn(64)
 		}
 		res.Faults["forge.hdr.blocksize"]++
 	case 1:
@@ -77,7 +79,7 @@ func C03(c *Case) *Result {
 	if c.Thorough() {
 		maxForgedBlock = 64 << 20
 	}
-	fam := t.Pick(4, 3, 2, 1, 1, 1)
+	fam := t.Pick(4, 3, 3, 1, 1, 1)
 	if c.Thorough() && t.Intn(60) == 0 {
 		fam = 6
 	} else if !c.Thorough() && c.Index%2000 == 7 {
